@@ -25,6 +25,8 @@ def corpus():
         {"eps": 2, "ops": [[M, 1, 3], [M, 2, 4], [W, 0, None, True], [W, 0, 1, True], [W, 0, 2, True], [W, 0, 2, True], [W, 0, 1, True]]},
         # a change in the middle of a shard followed by more than a shard of the new value
         {"eps": 4, "ops": [[M, 1, 1], [M, 2, 2]] + [[W, 0, 1, True]] * 2 + [[W, 0, 2, True]] * 9},
+        # a rejected write carrying another value in the middle of a shard (the roll-over and the label precede the validation)
+        {"eps": 4, "ops": [[M, 1, 1], [M, 2, 2], [W, 0, 1, True], [W, 0, 1, True], [W, 0, 2, False], [W, 0, 1, True], [W, 0, 1, True]]},
         # metadata first provided right after an exact multiple of the shard size
         {"eps": 4, "ops": [[M, 1, 1]] + [[W, 0, None, True]] * 4 + [[W, 0, 1, True]] * 3},
     ]
